@@ -17,6 +17,7 @@ def run(ck, fb):
     r12h(ck, fb)
     r12j(ck, fb)
     r12k(ck, fb)
+    r12l(ck, fb)
     ck.borrow('rules.c13', {'R13b': 'R12i'}, 'a live gRPC or persistent registration must not be expired by a stale heartbeat entry queued for the same address')
 
 
@@ -345,3 +346,38 @@ def r12k(ck, fb):
                        if not wrong else '%s removes only instances with ephemeral == %s, the kind it does not own' % (fn, str(not kind).lower()),
                        'ephemeral == %s required' % str(kind).lower())
     ck.floor('R12k', 'reconciliation removal sites', n, 3)
+
+
+# NamingCmd variants that answer an instance query and take the healthy-only choice: variant -> operand position of the flag
+QUERY_FLAG = {'QueryServiceInfo': 2, 'QueryList': 2, 'QueryListString': 2}
+
+
+def r12l(ck, fb):
+    ck.rule('R12l', 'healthy-only is the caller\'s choice: wherever a request that carries a healthy-only flag (a local whose struct has a '
+                    'healthy_only field) is turned into NamingCmd::QueryServiceInfo / QueryList / QueryListString, the flag of the command is '
+                    'derived from that field - a constant there answers "healthy instances only" to a caller that asked for all of them, so a '
+                    'registered, enabled, currently unhealthy instance is missing from the result')
+    n = 0
+    for b in fb.bodies.values():
+        for (i, j, st) in b.aggregates(r'rnacos::naming::core::NamingCmd$'):
+            rv = st['rv']
+            if rv['variant'] not in QUERY_FLAG:
+                continue
+            carriers = []
+            for l in range(len(b.rec.get('locals', []))):
+                ty = (b.local_ty(l) or '').lstrip('&').replace('mut ', '')
+                if ty in fb.adts and fb.adts[ty].get('kind', 'struct') != 'enum' and fb.adts[ty]['variants'] and \
+                        'healthy_only' in [f[0] for f in fb.adts[ty]['variants'][0]['fields']]:
+                    carriers.append((l, ty))
+            if not carriers:
+                ck.info('R12l', '%s builds NamingCmd::%s without a request flag in sight (%s)' % ('::'.join(b.name.split('::')[-3:]), rv['variant'], b.where(i)))
+                continue
+            n += 1
+            ck.analysed(b)
+            t = Taint(b, place_src=field_place_src('healthy_only'))
+            op = rv['ops'][QUERY_FLAG[rv['variant']]]
+            ck.require(t.op_tainted(op), 'R12l', 'flag-from-request:%s' % b.name.replace('::{closure#0}', ''), b.where(i),
+                       'NamingCmd::%s is built with %s although the request (%s) carries healthy_only: a caller that asks for all instances '
+                       '(healthyOnly=false) does not get the unhealthy ones' % (rv['variant'], cfg.fmt_desc(cfg.describe_operand(b, op)) if hasattr(cfg, 'fmt_desc') else 'a value not derived from it', carriers[0][1].split('::')[-1]),
+                       'flag derived from healthy_only')
+    ck.floor('R12l', 'query commands built from a request with a healthy-only flag', n, 2)
